@@ -66,6 +66,15 @@ def cases(tier, seed):
             s['circuit']['edges'][0][3]['delay'] = d
             s['circuit']['edges'][1][3]['delay'] = 2 * d
             add(s, 'dde_approx', dde_approx=n)
+    # Connectivity(delays, spread): one and two kernels leaving one population variable
+    for s1, s2 in ((0.5, 0.7), (0.7, 0.5), (0.5, None), (0.5, 0.5), (0.35, 0.7)):
+        for d2 in (1.0, 0.5):
+            c2 = {'src': 'e', 'tgt': 'i', 'W': [[1.5, -0.5], [0.25, 2.0]], 'delay': d2}
+            if s2:
+                c2['spread'] = s2 * d2
+            out.append({'pop': True, 'pops': {'e': 2, 'i': 2}, 'tag': 'connectivity_kernels', 'seed': seed, 'spec': None,
+                        'conns': [{'src': 'e', 'tgt': 'e', 'W': [[0.0, 2.0], [-0.5, 0.0]], 'delay': 1.0, 'spread': s1}, c2],
+                        'vectorize': True, 'solver': 'euler'})
     # unit gain: constant source, long run
     for i in range(len(DS)):
         out.append({'spec': None, 'tag': 'gain', 'ds': list(DS[i]), 'vectorize': True, 'solver': 'euler'})
@@ -120,6 +129,9 @@ def run_case(case):
         return res
     if case['tag'] == 'gain':
         return run_gain(case, res, sig, viol)
+    if case.get('pop'):
+        from . import C16
+        return C16.run_case(case)
     spec = case['spec']
     steps = 24
     m0 = sp.refmodel(spec)
